@@ -8,6 +8,7 @@ Actual memory accesses, undefined behaviour and reproducibility are runtime fact
 observed (sanitizers, memcheck, repeated runs with perturbed allocator / address space), not proved.
 -/
 import Qsx.Proofs.CapSound
+import Qsx.Proofs.StoreAcctSound
 
 namespace Qsx.Props.C17
 open Qsx Qsx.Cap
@@ -23,5 +24,30 @@ theorem history_inv (ops : List Op) : Cap.Inv (run {} ops) := run_inv {} ops (by
 -- non-vacuity: the first added row grows every array from 0 and writes index 0
 #guard (step {} .addRow).1.rowsize == Gen.extraRows && (step {} .addRow).2.1 == some 0
 #guard (run {} [.addRow, .addCol, .addCol, .delRows 1]).ncols == 2
+
+/-! ### free-space accounting of the sparse column store (matsize / matfree)
+`Qsx.Store` transliterates matrix_addrow / _addrow_end / _addcoef / _addcol / delcols_work and is
+compared with the real arrays after every call (check C06); each `addrow` of the model is checked at
+run time against the abstraction `Qsx.StoreAcct` used here. -/
+
+/-- the guard `delta < matfree` of `matrix_addrow` keeps every write of its in-place branch inside
+the array (at most one touched column can end exactly at the first free slot) -/
+theorem addrow_guard_sufficient (acts : List StoreAcct.Act) (free : Int)
+    (hguard : (StoreAcct.delta acts : Int) < free) (hone : StoreAcct.atEndCount acts ≤ 1) :
+    ∃ f, StoreAcct.run free acts = some f ∧ 0 ≤ f := StoreAcct.addrow_guard_sufficient acts free hguard hone
+
+/-- and `delta ≤ matfree` would not be enough -/
+theorem addrow_guard_tight (c : Nat) : StoreAcct.run ((c : Int) + 2) [.inPlace true, .move c] = none :=
+  StoreAcct.addrow_guard_tight c
+
+theorem addcol_safe (size : Nat) (free : Int) (cnt extra : Nat) (h0 : 0 ≤ free) (h1 : free ≤ size) :
+    let r := StoreAcct.addcol size free cnt extra
+    0 ≤ r.2.1 ∧ r.2.1 ≤ r.1 ∧ 0 ≤ r.2.2 ∧ r.2.2 < r.1 := StoreAcct.addcol_safe size free cnt extra h0 h1
+
+theorem addcoef_move_safe (c : Nat) (free : Int) (h : (c : Int) + 2 < free) :
+    ∃ f, StoreAcct.run free [.move c] = some f ∧ 0 ≤ f := StoreAcct.addcoef_move_safe c free h
+
+#guard StoreAcct.run 10 [.first, .inPlace true, .move 3] == some 4
+#guard StoreAcct.delta [.first, .inPlace true, .move 3] == 5
 
 end Qsx.Props.C17
